@@ -104,13 +104,16 @@ def gen_scn(r, k, forced=None):
     p_restart = f.get("p_restart", r.choice([0.0, 0.0, 0.06]))
     can_rebin = use_grids and c["keep"] and not any(v["expand"] for v in vars_) and not c["eb"]
     can_rebin_grids = use_grids and not c["keep"] and not c["eb"]
+    rebin_on = False
     events = []
     prev = None
     cur = [dict(lower=v["lower"], upper=v["upper"], nx=v["nx"]) for v in vars_]   # current boundaries of the configuration
     for s in range(nsteps):
         if s > 0 and r.random() < p_restart:
             m = r.random()
-            if m < 0.25:
+            if m < 0.25 and not rebin_on:
+                # (an instance configured with rebinGrids rebins again, onto its configured boundaries, at every state it
+                # reads: a reload there is a second rebinning, not modelled)
                 events.append(("reload",))
             elif can_rebin_grids and m < 0.6:
                 # rebinning from the grids of the state (no keepHills): the current grids extended by whole bins where
@@ -128,6 +131,7 @@ def gen_scn(r, k, forced=None):
                     b.update(lower=lo, upper=up, nx=nx)
                     g.append((nx, lo, up))
                 events.append(("rebin", g))
+                rebin_on = True
                 can_rebin_grids = False      # once: a second extension would have to know the expansions since
             elif can_rebin and r.random() < 0.5:
                 g = []
@@ -141,8 +145,10 @@ def gen_scn(r, k, forced=None):
                     b.update(lower=lo, upper=lo + nx * v["w"], nx=nx)
                     g.append((nx, lo, lo + nx * v["w"]))
                 events.append(("rebin", g))
+                rebin_on = True
             else:
                 events.append(("restart",))
+                rebin_on = False
         zs = []
         for d, v0 in enumerate(vars_):
             v = dict(v0, **cur[d])
